@@ -34,6 +34,11 @@ def extras(rng, b, depth=0):
             first = rng.choice([1.5, 0.25, 3, 10])
             pairs = [(first, rng.randint(0, 9))] + [(rng.randint(0, 50), rng.choice([rng.randint(0, 50), 2.5])) for _ in range(rng.randint(0, 2))]
             b.items.insert(rng.randrange(len(b.items) + 1), ("points", "points", pairs))
+    # characters that are line boundaries for str.splitlines() only, CRLF and a bare LF inside a quoted string: content, not layout
+    for k in ("data", "template", "text", "title", "header"):
+        if k in props and rng.random() < .12 and not any(len(it) > 1 and it[1] == k for it in b.items):
+            v = rng.choice(["SELECT a\r\nFROM t", "first\u2028second", "nel\x85here", "page\x0cbreak", "fs\x1cgs", "vt\x0btab", "a\nb", "cr\rlf"])
+            b.items.append(("attr", k, v, [(v, "qstr")], "string"))
     if "name" in props and rng.random() < .25:
         body = rng.choice(['layer \\"a\\"', 'x \\"', "it is \\'b\\'", 'The \\"Title\\"'])
         q = "'" if "\\'" in body else '"'
